@@ -16,7 +16,9 @@ def dt_star(device):
     sq = 1 / np.sqrt(g.areas)
     S = (L * g.areas[:, None]) * sq[:, None] * sq[None, :]
     lam = float(np.max(-sla.eigvalsh((S + S.T) / 2)))
-    return 2 * device.layer.u / (np.sqrt(1 + device.layer.gamma**2) * lam)
+    # (LAPACK's eigenvalues depend on the BLAS thread count in the last bits; the step handed to the library as an INPUT must not:
+    #  it is rounded to 9 significant digits)
+    return float(f"{2 * device.layer.u / (np.sqrt(1 + device.layer.gamma**2) * lam):.9g}")
 
 
 def clamp(o, dts, nsteps):
